@@ -256,7 +256,7 @@ func (x *Exec) applySpec(s *State, spec *FuncSpec, evName string, vars map[strin
 		res = x.freshResults(s, sig, shortName(spec.Name))
 	}
 	rs := splitTuple(sig, res)
-	post := &Env{x: x, s: s, vars: map[string]Val{}, heap: s.heap, old: pre, events: s.events}
+	post := &Env{x: x, s: s, vars: map[string]Val{}, heap: s.heap, old: pre, events: s.events, calleePost: true}
 	for k, v := range vars {
 		post.vars[k] = v
 	}
